@@ -666,6 +666,7 @@ func (m *Memberlist) Leave(timeout time.Duration) error {
 			m.logger.Printf("[WARN] memberlist: Leave but we're not in the node map.")
 			return nil
 		}
+		verifPoint(m, "leave.before-dead")
 
 		// This dead message is special, because Node and From are the
 		// same. This helps other nodes figure out that a node left
